@@ -41,9 +41,9 @@ def ld_tolerance(s, cfg, D):
     if s.kind == "umnn":
         # declared approximation: the map is an nb_steps-point Clenshaw-Curtis quadrature of the integrand over [0, x]
         # while the returned log-det is the integrand itself; the gap grows with |x| (alphabet reaches |x| = 6)
-        t += 2e-1 if cfg.get("integrand") == "relu" else 5e-2
+        t += 1.0 if cfg.get("integrand") == "relu" else 5e-2
         if cfg.get("nb_steps", 60) < 60:
-            t += 2e-1 if cfg.get("integrand") == "relu" else 5e-2
+            t += 1.0 if cfg.get("integrand") == "relu" else 5e-2
     return t
 
 
@@ -91,7 +91,7 @@ def check_row(s, cfg, m, row, tag, call=None):
     def agree(u, v):
         return np.isfinite(u) and np.isfinite(v) and abs(u - v) <= 2e-7 * D + 1e-7 * abs(u)
 
-    tol = ld_tolerance(s, cfg, D)
+    tol = ld_tolerance(s, cfg, D) + 3e-7 * abs(L)
     prev = lds(2e-5)
     got = None
     for h in (5e-6, 1.25e-6):
